@@ -6,6 +6,7 @@
 #ifndef VERIF_SWEEP_NEIGHBOURS_HPP
 #define VERIF_SWEEP_NEIGHBOURS_HPP
 #include "sweep_core.hpp"
+#include "hashtwins.hpp"
 #include <algorithm>
 
 namespace vh {
@@ -116,6 +117,32 @@ inline void Sweep::unified_neighbours()
       const Type* vts[] = { ts[0], &lex.get_qualified(Qualifiers(1), *ts[0]), &lex.get_qualified(Qualifiers(3), *ts[0]), &lex.get_pointer(*ts[0]), &lex.get_reference(*ts[0]), ts[0] };
       k = 0;
       for (auto vt : vts) { auto* d = holder->body.scope.make_var(vname, *vt); add_node("Scope::make_var(burst " + std::to_string(k++) + ")", d, Category_code::Var, [d, vt, np = &vname](Ck& c) { c.same("name", &d->name(), static_cast<const Name*>(np)); c.type_is(*d, *vt, "given"); }); }
+   }
+   // different spellings of equal length and equal hash code (constructed; verified with std::hash), through every constructor
+   // that takes a spelling: each node reports the spelling it was built from, not its hash twin's
+   {
+      auto twins = hash_twins(rng.next(), 3);
+      if (twins.empty()) twins_unavailable = true;
+      for (auto& [a, b] : twins) for (auto* w : { &a, &b, &a }) {
+         auto u8 = widen(*w);
+         auto& s = lex.get_string(u8); add_node("get_string(hash twin)", &s, Category_code::String, [sp = &s, w = *w](Ck& c) { c.yes("characters", narrow(sp->characters()) == w, "a String does not have the characters it was interned with (it has those of a word with the same hash code)"); }, false);
+         auto* id = &lex.get_identifier(u8); add_node("get_identifier(hash twin)", id, Category_code::Identifier, [id, w = *w](Ck& c) { c.yes("string", narrow(id->string().characters()) == w, "an Identifier is spelled like its hash twin"); }, false);
+         auto* op = &lex.get_operator(u8); add_node("get_operator(hash twin)", op, Category_code::Operator, [op, w = *w](Ck& c) { c.yes("opname", narrow(op->opname().characters()) == w, "an Operator is spelled like its hash twin"); }, false);
+         auto* lt = lex.make_literal(L.int_type(), u8); add_node("make_literal(hash twin)", lt, Category_code::Literal, [lt, w = *w](Ck& c) { c.yes("string", narrow(lt->string().characters()) == w, "a Literal is spelled like its hash twin"); }, false);
+         auto& lk = lex.get_linkage(u8); add_other("get_linkage(hash twin)", &lk, [l = &lk, w = *w](Ck& c) { c.yes("language.what", narrow(l->language().what().characters()) == w, "a Linkage is spelled like its hash twin"); });
+         auto* ie = lex.make_id_expr(*id); (void)ie;
+      }
+   }
+   // an id-expression naming a declaration whose declared type is the `auto` placeholder, made before and after the declaration
+   // got its initializer: its type is the declaration's type either way
+   {
+      auto& au = lex.get_auto();
+      auto* v = unit.global_scope()->make_var(lex.get_identifier(u8"deduced_v"), au);
+      auto* e0 = lex.make_id_expr(*v); v->init = &P.X(); auto* e1 = lex.make_id_expr(*v);
+      for (auto e : { e0, e1 }) add_node(e == e0 ? "make_id_expr(decl typed auto)" : "make_id_expr(decl typed auto, initializer attached)", e, Category_code::Id_expr, [e, v, tp = static_cast<const Type*>(&au)](Ck& c) { c.type_is(*e, *tp, "id-expression of a declaration: that declaration's type"); c.opt("resolution", e->resolution(), static_cast<const Expr*>(v)); });
+      auto* m = lex.make_mapping(*unit.global_region(), Mapping_level { 1 });
+      auto* p = m->param(lex.get_identifier(u8"deduced_p"), au); p->init = &P.X(); auto* e2 = lex.make_id_expr(*p);
+      add_node("make_id_expr(parameter typed auto, default attached)", e2, Category_code::Id_expr, [e2, tp = static_cast<const Type*>(&au)](Ck& c) { c.type_is(*e2, *tp, "id-expression of a declaration: that declaration's type"); });
    }
    // spellings that are prefixes of one another, through every spelling-keyed constructor
    {
